@@ -33,6 +33,14 @@ type recFn struct {
 	key string
 	fn  *ssa.Function
 	id  int
+	// dyn: the pseudo entry `records dyn` - calls through function values made
+	// by this activation.  "Parameters": the function value, then the
+	// arguments; sorts are those found at the dynamic call sites of the
+	// function under verification (one array per position and sort).
+	dyn      bool
+	dynArgs  [][]string // position -> sorts seen
+	dynRes   []string   // result sorts seen
+	dynResTy []types.Type
 }
 
 func mentionsTraceText(text string) bool {
@@ -97,6 +105,46 @@ func (vc *VC) recorded() []recFn {
 	}
 	pk := shortPkg(vc.fn.Pkg.Pkg.Path())
 	for _, r := range recs {
+		if r == "dyn" {
+			d := recFn{key: "dyn", id: 0, dyn: true}
+			seen := map[string]bool{}
+			add := func(list *[]string, tag, srt string) {
+				if !seen[tag+srt] {
+					seen[tag+srt] = true
+					*list = append(*list, srt)
+				}
+			}
+			var walk func(fn *ssa.Function)
+			walk = func(fn *ssa.Function) {
+				for _, b := range fn.Blocks {
+					for _, in := range b.Instrs {
+						c, ok := in.(*ssa.Call)
+						if !ok || c.Call.IsInvoke() || c.Call.StaticCallee() != nil {
+							continue
+						}
+						if _, isB := c.Call.Value.(*ssa.Builtin); isB {
+							continue
+						}
+						for j, a := range c.Call.Args {
+							for len(d.dynArgs) <= j {
+								d.dynArgs = append(d.dynArgs, nil)
+							}
+							add(&d.dynArgs[j], fmt.Sprint("a", j), vc.sortOf(a.Type()))
+						}
+						if sig, ok := c.Call.Value.Type().Underlying().(*types.Signature); ok && sig.Results().Len() == 1 {
+							n0 := len(d.dynRes)
+							add(&d.dynRes, "r", vc.sortOf(sig.Results().At(0).Type()))
+							if len(d.dynRes) > n0 {
+								d.dynResTy = append(d.dynResTy, sig.Results().At(0).Type())
+							}
+						}
+					}
+				}
+			}
+			walk(vc.fn)
+			vc.recFns = append(vc.recFns, d)
+			continue
+		}
 		k := r
 		if _, ok := vc.P.Funcs[k]; !ok {
 			k = pk + "." + r
@@ -111,9 +159,18 @@ func (vc *VC) recorded() []recFn {
 	return vc.recFns
 }
 
+func (vc *VC) recDyn() *recFn {
+	for i := range vc.recorded() {
+		if vc.recFns[i].dyn {
+			return &vc.recFns[i]
+		}
+	}
+	return nil
+}
+
 func (vc *VC) recByFn(fn *ssa.Function) *recFn {
 	for i := range vc.recorded() {
-		if vc.recFns[i].fn == fn {
+		if !vc.recFns[i].dyn && vc.recFns[i].fn == fn {
 			return &vc.recFns[i]
 		}
 	}
@@ -124,6 +181,12 @@ func (vc *VC) recByName(name string) (*recFn, error) {
 	var hit *recFn
 	for i := range vc.recorded() {
 		r := &vc.recFns[i]
+		if r.dyn {
+			if name == "dyn" {
+				return r, nil
+			}
+			continue
+		}
 		if r.key == name || r.fn.Name() == name || strings.HasSuffix(r.key, "."+name) {
 			if hit != nil && hit.fn != r.fn {
 				return nil, fmt.Errorf("recorded function %s is ambiguous", name)
@@ -146,6 +209,23 @@ func (vc *VC) trInit(st *State) {
 	st.tr["F"] = vc.fresh("trF", "(Array Int Int)").S
 	vc.trSort = map[string]string{"F": "(Array Int Int)"}
 	for _, r := range rs {
+		if r.dyn {
+			mk := func(k, srt string) {
+				vc.needSort(srt)
+				vc.trSort[k] = "(Array Int " + smtSort(srt) + ")"
+				st.tr[k] = vc.fresh("trD", vc.trSort[k]).S
+			}
+			mk("A:dyn:fn", SInt)
+			for j, ss := range r.dynArgs {
+				for _, srt := range ss {
+					mk(fmt.Sprintf("A:dyn:%d:%s", j, srt), srt)
+				}
+			}
+			for _, srt := range r.dynRes {
+				mk("R:dyn:"+srt, srt)
+			}
+			continue
+		}
 		for j, p := range r.fn.Params {
 			vc.needSort(vc.sortOf(p.Type()))
 			k := fmt.Sprintf("A:%s:%d", r.key, j)
@@ -178,6 +258,36 @@ func (vc *VC) trRecord(st *State, r *recFn, args []T) string {
 	}
 	st.tr["N"] = app("+", idx, "1")
 	return idx
+}
+
+// trRecordDyn appends a call through a function value.
+func (vc *VC) trRecordDyn(st *State, fv T, args []T) string {
+	idx := st.tr["N"]
+	upd := func(k, v string) {
+		if _, ok := st.tr[k]; !ok {
+			return
+		}
+		n := vc.fresh("tr", vc.trSort[k])
+		vc.assume(st, eq(n.S, app("store", st.tr[k], idx, v)))
+		st.tr[k] = n.S
+	}
+	upd("F", "0")
+	upd("A:dyn:fn", fv.S)
+	for j, a := range args {
+		upd(fmt.Sprintf("A:dyn:%d:%s", j, a.Sort), a.S)
+	}
+	st.tr["N"] = app("+", idx, "1")
+	return idx
+}
+
+func (vc *VC) trResultDyn(st *State, idx string, res T) {
+	k := "R:dyn:" + res.Sort
+	if _, ok := st.tr[k]; !ok {
+		return
+	}
+	n := vc.fresh("tr", vc.trSort[k])
+	vc.assume(st, eq(n.S, app("store", st.tr[k], idx, res.S)))
+	st.tr[k] = n.S
 }
 
 func (vc *VC) trResult(st *State, r *recFn, idx string, res T) {
@@ -247,6 +357,32 @@ func (ec *evalCtx) traceExpr(name string, x *ast.CallExpr) (T, types.Type, error
 			return T{}, nil, ec.errf(x, "%v", err)
 		}
 		cs := []string{eq(app("select", tr["F"], k.S), fmt.Sprint(r.id)), app(">=", k.S, "0"), app("<", k.S, tr["N"])}
+		if r.dyn {
+			// scall(k, dyn, fnval, a0, a1, ...)
+			for j, a := range x.Args[2:] {
+				if id, ok := a.(*ast.Ident); ok && id.Name == "_" {
+					continue
+				}
+				v, _, err := ec.eval(a)
+				if err != nil {
+					return v, nil, err
+				}
+				if v.Sort == "Nil" {
+					v.Sort = SInt
+					v.S = "0"
+				}
+				key := "A:dyn:fn"
+				if j > 0 {
+					key = fmt.Sprintf("A:dyn:%d:%s", j-1, v.Sort)
+				}
+				arr, ok := tr[key]
+				if !ok {
+					return T{}, nil, ec.errf(x, "scall(dyn): no dynamic call of this function passes a %s in position %d", v.Sort, j-1)
+				}
+				cs = append(cs, eq(app("select", arr, k.S), v.S))
+			}
+			return T{S: and(cs...), Sort: SBool}, types.Typ[types.Bool], nil
+		}
 		for j, a := range x.Args[2:] {
 			if id, ok := a.(*ast.Ident); ok && id.Name == "_" {
 				continue
@@ -284,6 +420,9 @@ func (ec *evalCtx) traceExpr(name string, x *ast.CallExpr) (T, types.Type, error
 		if err != nil {
 			return T{}, nil, ec.errf(x, "%v", err)
 		}
+		if r.dyn {
+			return T{}, nil, ec.errf(x, "sarg is not available for dyn; use scall(k, dyn, fnval, args...)")
+		}
 		j := -1
 		fmt.Sscan(types.ExprString(x.Args[2]), &j)
 		if j < 0 || j >= len(r.fn.Params) {
@@ -302,6 +441,24 @@ func (ec *evalCtx) traceExpr(name string, x *ast.CallExpr) (T, types.Type, error
 		r, err := vc.recByName(types.ExprString(x.Args[1]))
 		if err != nil {
 			return T{}, nil, ec.errf(x, "%v", err)
+		}
+		if r.dyn {
+			// sret(k, dyn) / sret(k, dyn, T): result of the k-th call (of Go type T; default: the only result type seen)
+			if len(x.Args) > 2 {
+				tt, err := ec.typeExpr(x.Args[2])
+				if err != nil {
+					return T{}, nil, err
+				}
+				arr, ok := tr["R:dyn:"+vc.sortOf(tt)]
+				if !ok {
+					return T{}, nil, ec.errf(x, "sret(dyn): no dynamic call here returns a %s", tt)
+				}
+				return T{S: app("select", arr, k.S), Sort: vc.sortOf(tt)}, tt, nil
+			}
+			if len(r.dynRes) != 1 {
+				return T{}, nil, ec.errf(x, "sret(k, dyn, T): result type needed")
+			}
+			return T{S: app("select", tr["R:dyn:"+r.dynRes[0]], k.S), Sort: r.dynRes[0]}, r.dynResTy[0], nil
 		}
 		i := 0
 		if len(x.Args) > 2 {
